@@ -2,10 +2,12 @@
 """Print the sub-agent prompt for a seeded-mutation request for property <id> (text only from properties.jsonl)."""
 import json, sys
 pid = sys.argv[1]
+rnd = sys.argv[2] if len(sys.argv) > 2 else ""
 for l in open('/verif/properties.jsonl'):
     p = json.loads(l)
     if p['id'] == pid: break
-wt = f"/tmp/wt-{pid}"
+wt = f"/tmp/wt{rnd}-{pid}"
+HARD = ("IMPORTANT — this is a second, harder round. Assume a reviewer will run large randomized differential tests of this library against an independent reference implementation (hundreds of thousands of random robots, poses, joint vectors, constraint sets, scenes) and property checks on the outputs. Your changes must be ones such testing is UNLIKELY to hit: they should manifest only on a thin set of inputs (an exact boundary value, equality of two quantities, a value just past a threshold, a combination of three independent conditions, an argument order that only matters for non-commutative cases, a rarely used public entry point or constructor, a particular length/ordering of a collection, state carried between two calls) while still being realistic slips and still clearly violating the property. Avoid the obvious candidates (sign flips in core formulas, dropped filters on main paths).\n\n" if rnd else "")
 print(f"""You are given a scratch git worktree of the Rust crate `rs-opw-kinematics` (analytical inverse/forward kinematics for 6-axis OPW robots, with constraints, tool/base frames, Jacobian, collisions, path planning) at {wt}. Work ONLY inside {wt}. Do not read or touch /repo or /verif. The sandbox has no network: always pass --offline to cargo (or set CARGO_NET_OFFLINE=true). Use this command for the existing test-suite (66 tests, all must pass; first build takes a few minutes):
 
     cd {wt} && cargo test --lib --offline --no-default-features --features "allow_filesystem collisions stroke_planning" 2>&1 | tail -15
@@ -19,7 +21,7 @@ A semantic property of the library that should hold:
   Quantified over: {p['quantifier']['text']}
   Relevant files: {', '.join(p['anchors']['files'])}
 
-Your task: craft TWO different, independent changes ("mutA", "mutB") to the library source under {wt}/src (not to the tests) each of which BREAKS this property while the crate still compiles and the existing 66 tests still all pass. Each change must be a realistic bug a developer could introduce (wrong sign / dropped or weakened check / wrong delegate / off-by-one / wrong index / boundary comparison / stale value / two sites that each look fine alone ...), and it must be SUBTLE: it should need something specific to manifest (a particular input region, an unusual parameter such as a non-zero offset or negative sign correction or b != 0, a particular multi-step sequence, a specific wrapper nesting, a boundary value) rather than failing on almost every ordinary call. Do not make changes that only alter performance, logging or formatting.
+{HARD}Your task: craft TWO different, independent changes ("mutA", "mutB") to the library source under {wt}/src (not to the tests) each of which BREAKS this property while the crate still compiles and the existing 66 tests still all pass. Each change must be a realistic bug a developer could introduce (wrong sign / dropped or weakened check / wrong delegate / off-by-one / wrong index / boundary comparison / stale value / two sites that each look fine alone ...), and it must be SUBTLE: it should need something specific to manifest (a particular input region, an unusual parameter such as a non-zero offset or negative sign correction or b != 0, a particular multi-step sequence, a specific wrapper nesting, a boundary value) rather than failing on almost every ordinary call. Do not make changes that only alter performance, logging or formatting.
 
 For each change also write a demonstration: a small Rust integration test (file `tests/demo_{pid}_A.rs` resp. `_B.rs`, using only the crate's public API, enabled with the same features) that FAILS with the change applied and PASSES on the unchanged source.
 
